@@ -86,6 +86,56 @@ func c06Prefix(r *core.Report) {
 				return true
 			})
 		}
+		goodWidth := checkUvarintLenIdiom(r, rule, "gsfa/linkedlog", "gsfa")
+		shape2 := false
+		if prefixVar == nil && wroteBuf != nil {
+			// second shape: buf := make([]byte, W+...); binary.PutUvarint(buf, L); copy(buf[W:], ...) with W := widthFunc(L)
+			for _, fn := range put.AllWithLits() {
+				info := fn.Pkg.TypesInfo
+				bufObj := core.ObjOf(info, wroteBuf)
+				for _, c := range core.CallsIn(fn.Body, false) {
+					if core.CalleeName(info, c) == "encoding/binary.PutUvarint" && len(c.Args) == 2 && core.ObjOf(info, c.Args[0]) == bufObj && bufObj != nil {
+						payloadLenArg = core.ObjOf(info, c.Args[1])
+					}
+				}
+				ast.Inspect(fn.Body, func(n ast.Node) bool {
+					as, ok := n.(*ast.AssignStmt)
+					if !ok || len(as.Rhs) != 1 || len(as.Lhs) != 1 {
+						return true
+					}
+					if c, ok := core.Unparen(as.Rhs[0]).(*ast.CallExpr); ok && len(c.Args) == 1 && payloadLenArg != nil && core.ObjOf(info, c.Args[0]) == payloadLenArg {
+						if fnObj := core.Callee(info, c); fnObj != nil && (goodWidth[fnObj.Origin()] || isUvarintWidthFunc(core.CalleeName(info, c))) {
+							prefixVar = core.ObjOf(info, as.Lhs[0])
+						} else if fnObj != nil && p.ByObj[fnObj.Origin()] != nil {
+							prefixVar = core.ObjOf(info, as.Lhs[0]) // width function of the repository: judged by the idiom rule
+						}
+					}
+					return true
+				})
+				// the buffer is allocated with the prefix width in front and the payload is copied behind it
+				if prefixVar != nil && bufObj != nil {
+					alloc, copied := false, false
+					ast.Inspect(fn.Body, func(n ast.Node) bool {
+						switch x := n.(type) {
+						case *ast.AssignStmt:
+							if len(x.Lhs) == 1 && len(x.Rhs) == 1 && core.ObjOf(info, x.Lhs[0]) == bufObj {
+								if c, ok := core.Unparen(x.Rhs[0]).(*ast.CallExpr); ok && core.BuiltinName(info, c) == "make" && len(c.Args) >= 2 && core.Mentions(info, c.Args[1], prefixVar) {
+									alloc = true
+								}
+							}
+						case *ast.CallExpr:
+							if core.BuiltinName(info, x) == "copy" && len(x.Args) == 2 {
+								if se, ok := core.Unparen(x.Args[0]).(*ast.SliceExpr); ok && core.ObjOf(info, se.X) == bufObj && se.Low != nil && core.ObjOf(info, se.Low) == prefixVar {
+									copied = true
+								}
+							}
+						}
+						return true
+					})
+					shape2 = alloc && copied
+				}
+			}
+		}
 		if prefixVar == nil || payloadLenArg == nil || written == nil || wroteBuf == nil {
 			r.Undecided(rule, put.Key+"#writer-shape", posP(r, put.Pos()), "prefix encoding / write call of the record not recognised")
 		} else {
@@ -122,6 +172,7 @@ func c06Prefix(r *core.Report) {
 					return true
 				})
 			}
+			firstAppendOK = firstAppendOK || shape2
 			r.Check(firstAppendOK, rule, put.Key+"#record-starts-with-prefix", posP(r, put.Pos()), "the written record starts with the encoded prefix", "the record written to the log does not start with the encoded length prefix")
 			r.Check(afterArgOK, rule, put.Key+"#reported-size-is-record-size", posP(r, put.Pos()), "callbackAfter receives the byte count of the whole record (prefix included)", "the size reported for the record is not the number of bytes written for it")
 		}
